@@ -130,7 +130,7 @@ Apply(st0, e) ==
          [] e.op = "open" ->
               IF flt THEN SetW(st, w, [r EXCEPT !.pc = "failed", !.err = "os"])
               ELSE IF e.res = "exists" THEN SetW(st, w, [r EXCEPT !.pc = "open", !.tried = @ \cup {e.i}])
-              ELSE [SetW(st, w, [r EXCEPT !.pc = "body", !.i = e.i])
+              ELSE [SetW(st, w, [r EXCEPT !.pc = "body", !.i = e.i, !.tried = {}, !.mkf = FALSE])
                         EXCEPT !.tmp = AddTmp(@, e.i, [owner |-> w, data |-> FALSE])]
          [] e.op = "bcall" -> SetW(st, w, [r EXCEPT !.acc = @ + e.n])
          [] e.op = "write" ->
